@@ -46,9 +46,6 @@ def spl_contract_cases(seed, count, max_side, tag):
             base = dict(op="spl", g=k, eid=7, m=rng.choice(["0.4", "0.5", "1"]), n=nn, tol="1e-6",
                         dt=rng.choice(["1", "10", "1e3"]), Ks=rng.choice(["1", "1e-2", "5"]), elev="out")
             steps.append(dict(base))
-            if rng.random() < 0.5:
-                # the array returned by the previous call of this eroder handed back as the elevation (aliasing)
-                steps.append(dict(base, elev="erosion"))
             for _ in range(3):
                 mask2, bl2 = gen.rand_mask_bl(rng, g, p_mask=0.25, p_bl=0.25)
                 z2 = gen.rand_field(rng, g, rng.choice(["tied", "bowl", "distinct"]))
